@@ -338,4 +338,53 @@ theorem ris_step {t : Term.T} {e : Emu} {rows cols : Nat} (s2 : Sim2 t e rows co
   rw [s2.sim.trows, s2.sim.tcols]
   exact ris_sim2 s2.sim.inv s2.sim.dim
 
+/-! ### round 3: colon sub-parameters of the non-SGR functions -/
+
+/-- the parameter list without its colon sub-parameters -/
+def dropSubs (pm : List Param) : List Param := pm.map (fun p => (p.1, []))
+
+theorem ps_dropSubs (pm : List Param) : ps (clampParams (dropSubs pm)) = ps (clampParams pm) := by
+  cases pm <;> rfl
+
+theorem cup_dropSubs (e : Emu) (pm : List Param) :
+    cup Fixes.current e (clampParams (dropSubs pm)) = cup Fixes.current e (clampParams pm) := by
+  rcases pm with _ | ⟨a, _ | ⟨b, _ | ⟨c, r⟩⟩⟩ <;> rfl
+
+theorem decstbm_dropSubs (e : Emu) (pm : List Param) :
+    decstbm Fixes.current e (clampParams (dropSubs pm)) = decstbm Fixes.current e (clampParams pm) := by
+  rcases pm with _ | ⟨a, _ | ⟨b, _ | ⟨c, r⟩⟩⟩ <;> rfl
+
+/-- The cursor / erase / edit / scroll functions of the vocabulary read the main value of each parameter only: colon
+    sub-parameters (`CSI 2:5 A`) change nothing. An EMULATOR-side fact; whether a terminal should execute such a sequence at
+    all is terminal specific (xterm ignores it, DEC STD 070 leaves `:` reserved), so `tokOfX` does not judge it. -/
+theorem csi_ignores_subparams (e : Emu) (f : Nat) (pm : List Param) (hf : f ∈ onePs ∨ f ∈ twoPs) :
+    csi Fixes.current e [f] (dropSubs pm) = csi Fixes.current e [f] pm := by
+  have hlen : (clampParams (dropSubs pm)).length = (clampParams pm).length := by simp [clampParams, dropSubs]
+  rcases hf with hf | hf
+  · simp only [onePs, List.mem_cons, List.not_mem_nil, or_false] at hf
+    rcases hf with rfl | rfl | rfl | rfl | rfl | rfl | rfl | rfl | rfl | rfl | rfl | rfl | rfl | rfl | rfl | rfl | rfl | rfl
+    · rw [csi_64, csi_64, ps_dropSubs]
+    · rw [csi_65, csi_65, ps_dropSubs]
+    · rw [csi_66, csi_66, ps_dropSubs]
+    · rw [csi_67, csi_67, ps_dropSubs]
+    · rw [csi_68, csi_68, ps_dropSubs]
+    · rw [csi_69, csi_69, ps_dropSubs]
+    · rw [csi_70, csi_70, ps_dropSubs]
+    · rw [csi_71, csi_71, ps_dropSubs]
+    · rw [csi_74, csi_74, ps_dropSubs]
+    · rw [csi_75, csi_75, ps_dropSubs]
+    · rw [csi_76, csi_76, ps_dropSubs]
+    · rw [csi_77, csi_77, ps_dropSubs]
+    · rw [csi_80, csi_80, ps_dropSubs]
+    · rw [csi_83, csi_83, ps_dropSubs]
+    · rw [csi_84, csi_84, ps_dropSubs, hlen]
+    · rw [csi_88, csi_88, ps_dropSubs]
+    · rw [csi_96, csi_96, ps_dropSubs]
+    · rw [csi_100, csi_100, ps_dropSubs]
+  · simp only [twoPs, List.mem_cons, List.not_mem_nil, or_false] at hf
+    rcases hf with rfl | rfl | rfl
+    · rw [csi_72, csi_72, cup_dropSubs]
+    · rw [csi_102, csi_102, cup_dropSubs]
+    · rw [csi_114, csi_114, decstbm_dropSubs]
+
 end VaxisModel.Lemmas.EmuRefine
